@@ -22,7 +22,7 @@ RULE = (
     "all shapes of depth <= 3 over {list, tuple, dict value, State attribute (Any / inside a Mapping attribute / inside a Sequence attribute)} holding MISSING x "
     "{Missing(), copy, deepcopy, pickle protocols 0..5}; predicates is_missing / not_missing / "
     "when_missing / bool / == / != over {MISSING, None, False, 0, '', (), [], {}, always-equal "
-    "object, forged second instance, the class}; attribute get/set/del; non-trivial = nested "
+    "object, forged second instance, the class}; the same look-alikes stored through an attribute first, then instances leaving that attribute out (new / copy / deepcopy / updated), next to a subclass overriding the default; attribute get/set/del; non-trivial = nested "
     "shape, or a look-alike argument"
 )
 ASSUMPTIONS = [
@@ -37,6 +37,13 @@ SAMPLE_EVERY = {"quick": 150, "thorough": 900}
 class Holder(State):
     v: Any | Missing = MISSING
     n: int = 0
+
+
+class HolderSub(Holder):
+    """re-declares the attribute with the same annotation and another default: the base class'
+    default (MISSING) must stay what it was"""
+
+    v: Any | Missing = 10
 
 
 class MapHolder(State):
@@ -156,6 +163,11 @@ def programs(tier: str):
             yield {"family": "obtain", "shape": s, "how": o}
     for name in LOOKALIKES:
         yield {"family": "predicates", "value": name}
+    # a look-alike value went through the same attribute before: the next instance that leaves
+    # the attribute out (new, copied, deep-copied, updated) still holds the one MISSING
+    for name in LOOKALIKES:
+        if name != "MISSING":
+            yield {"family": "after", "value": name}
     yield {"family": "attributes"}
 
 
@@ -213,6 +225,37 @@ def execute(program, ch: Chooser) -> Result:  # noqa: C901, PLR0912, PLR0915
                         viols.append(viol("as-dict", f"{how}-raises", "dict", repr(exc)[:100]))
         outcome = f"obtain/{how}/{'skipped' if skipped else 'value'}"
         return Result(outcome, shape != "M", viols, {"shape": shape, "how": how, "skipped": skipped}, steps=2)
+    if fam == "after":
+        name = program["value"]
+        x = lookalike(name)
+        try:
+            first = Holder(v=x, n=1)
+            stored = "stored-as-given" if first.v is x else "stored-other"
+        except Exception as exc:  # noqa: BLE001
+            stored = f"rejected {type(exc).__name__}"
+        sub_default = HolderSub().v
+        if sub_default != 10:
+            viols.append(viol("singleton", "subclass-default", 10, repr(sub_default)))
+        for how, make in (
+            ("new", lambda: Holder(n=2)),
+            ("new-explicit", lambda: Holder(v=MISSING, n=2)),
+            ("copy", lambda: copy.copy(Holder(n=2))),
+            ("deepcopy", lambda: copy.deepcopy(Holder(n=2))),
+            ("updated", lambda: Holder(n=2).updated(n=3)),
+            ("nested-deepcopy", lambda: copy.deepcopy(Holder(v=Holder(n=4), n=2)).v),
+        ):
+            steps += 1
+            try:
+                inst = make()
+                got = inst.v
+            except Exception as exc:  # noqa: BLE001
+                viols.append(viol("obtain", f"after-{name}/{how}-raises", "an instance", f"{type(exc).__name__}: {exc}"[:120]))
+                continue
+            if got is not MISSING:
+                viols.append(viol("singleton", f"after-lookalike/{how}", "the one MISSING object", f"{type(got).__name__}: {got!r}"[:80], earlier=name))
+            elif not is_missing(inst.v) or "v" in inst.as_dict():
+                viols.append(viol("predicate", f"after-lookalike/{how}", "is_missing and omitted from as_dict", "not"))
+        return Result(f"after/{name}", True, viols, {"value": name, "first": stored}, steps=steps)
     if fam == "predicates":
         name = program["value"]
         x = lookalike(name)
